@@ -135,6 +135,14 @@ def run(prop, tier, replay=None):
                         path = vlib.save_replay(prop, "iter-%s-%d" % (sc["kind"], sc["seed"]), [sc])
                         violations.append((x["pred"], x["detail"], path))
         if not replay:
+            # iterations whose consumer rewrites keys and moves the clock between two yields (IterHist.tla, CheckBody)
+            import itercheck
+            n, iviol, ibroken = itercheck.run(prop, tier, work)
+            cov["loop_body_iterations"] = n
+            cov["traces_validated_against_impl"] += n
+            broken += ibroken
+            violations += iviol
+        if not replay:
             # large tables: the parallel copy path under several GOMAXPROCS values, writers parked inside their update functions
             import bulkcheck
             for level in ("table", "cache"):
